@@ -225,6 +225,30 @@ Proof.
     + eauto.
 Qed.
 
+Lemma get_some_in {A} k (v : A) l : get k l = Some v -> In (k, v) l.
+Proof.
+  induction l as [|[k2 v2] r IH]; cbn [get In]; [discriminate|].
+  destruct (Nat.eqb k k2) eqn:E.
+  - apply Nat.eqb_eq in E. subst. intros H. inversion H. auto.
+  - intros H. right. apply IH; exact H.
+Qed.
+
+Lemma in_get_nodup {A} k (v : A) l : NoDup (map fst l) -> In (k, v) l -> get k l = Some v.
+Proof.
+  induction l as [|[k2 v2] r IH]; cbn [get In map fst]; intros Hn Hin; [destruct Hin|].
+  inversion Hn as [|x xs Hnot Hr]; subst. destruct Hin as [E|Hin].
+  - inversion E; subst. rewrite Nat.eqb_refl. reflexivity.
+  - destruct (Nat.eqb k k2) eqn:E.
+    + apply Nat.eqb_eq in E. subst. exfalso. apply Hnot. apply (in_map fst) in Hin. exact Hin.
+    + apply IH; assumption.
+Qed.
+
+Lemma nodup_rev_keys {A} (l : list (nat * A)) : NoDup (map fst l) -> NoDup (map fst (rev l)).
+Proof. intros H. rewrite map_rev. apply NoDup_rev. exact H. Qed.
+
+Lemma get_rev {A} k (v : A) l : NoDup (map fst l) -> get k (rev l) = Some v -> get k l = Some v.
+Proof. intros Hn H. apply in_get_nodup; [exact Hn|]. apply in_rev. apply get_some_in. exact H. Qed.
+
 Lemma first_idle_none l : first_idle l = None -> forall s k, get s l = Some k -> exists c, loc k = Held c.
 Proof.
   induction l as [|[s' k'] r IH]; cbn [first_idle get]; intros H s k G; [discriminate|].
@@ -576,8 +600,9 @@ Lemma checkout_ok st c st1 s ev : J st -> K st -> checkout st c = Some (st1, s, 
   ok st (st1, ev) /\ (exists k, get s (conns st1) = Some k /\ loc k = Held c) /\ clients st1 = clients st.
 Proof.
   intros HJ HK. pose proof HJ as (N & B & T). unfold checkout.
-  destruct (first_idle (conns st)) as [s0|] eqn:F.
-  - destruct (first_idle_get _ _ N F) as (k0 & G & L). rewrite G. intros H. inversion H; subst. clear H.
+  destruct (first_idle (rev (conns st))) as [s0|] eqn:F.
+  - destruct (first_idle_get _ _ (nodup_rev_keys _ N) F) as (k0 & G0 & L). pose proof (get_rev _ _ _ N G0) as G.
+    rewrite G. intros H. inversion H; subst. clear H.
     destruct (T _ _ G) as [Ht Hi]. specialize (Hi L).
     set (k1 := {| truth := truth k0; belief := belief k0; loc := Held c |}).
     split; [|split].
